@@ -367,6 +367,44 @@ pub fn run_child(ctx: &Ctx) -> Report {
     st = st.merge(part);
     base += n_l;
 
+    // ---- (d') form bodies with an escape sign followed by multi-byte characters, every charset
+    {
+        let units = ["", "a", "4", "G", "%", "é", "€", "😀", "\u{80}", "\u{7ff}"];
+        let mut bodies: Vec<Vec<u8>> = Vec::new();
+        for x in units {
+            for y in units {
+                for z in ["", "b", "é"] {
+                    bodies.push(format!("a=%{}{}{}", x, y, z).into_bytes());
+                    bodies.push(format!("%{}{}{}=v&k=1", x, y, z).into_bytes());
+                }
+            }
+        }
+        // the same shapes in single-byte charsets: '%', one ASCII byte, then a high byte
+        for hi in [0x80u8, 0xa0, 0xe9, 0xff] {
+            bodies.push(vec![b'a', b'=', b'%', b'a', hi]);
+            bodies.push(vec![b'a', b'=', b'%', hi, b'a']);
+            bodies.push(vec![b'%', hi, hi, b'=', b'1']);
+        }
+        let cts: Vec<Vec<u8>> = std::iter::once(b"application/x-www-form-urlencoded".to_vec())
+            .chain(["utf-8", "iso-8859-1", "windows-1252", "shift_jis", "utf-16le", "gbk", "koi8-r"].iter().map(|l| format!("application/x-www-form-urlencoded; charset={}", l).into_bytes()))
+            .collect();
+        let n_x = (bodies.len() * cts.len()) as u64;
+        let b = base;
+        let part = par_sweep(n_x, |i, st| {
+            let body = &bodies[(i as usize) / cts.len()];
+            let ct = &cts[(i as usize) % cts.len()];
+            let mut w = base_wire.clone();
+            w.method = "POST".into();
+            w.body = body.clone();
+            w.headers.insert(1, ("Content-Type".into(), ct.clone()));
+            let mut cfg = Cfg::basic(now);
+            cfg.fold = true;
+            total(b + i, "form-escape-then-multibyte", w, &cfg, &std_prov, st);
+        });
+        st = st.merge(part);
+        base += n_x;
+    }
+
     // ---- (e) secrets x capacities (shared with C06)
     let b = base;
     let caps = [0usize, 1, 3, 4, 5, 44, 45, 64, 128];
@@ -507,7 +545,20 @@ pub fn run_child(ctx: &Ctx) -> Report {
         }
         // canonicalisation helpers on degenerate input
         use scratchstack_aws_signature::canonical as c;
-        for s in ["", "%", "%%", "+", "\u{0}", "é", "\u{10ffff}", &"%41".repeat(50000), &"a".repeat(1 << 20)] {
+        let mut helper_inputs: Vec<String> = vec!["".into(), "%".into(), "%%".into(), "+".into(), "\u{0}".into(), "é".into(), "\u{10ffff}".into(), "%41".repeat(50000), "a".repeat(1 << 20)];
+        {
+            let units = ["", "a", "4", "G", "%", "é", "€", "😀", "\u{80}", "\u{7ff}"];
+            for x in units {
+                for y in units {
+                    for z in ["", "b", "é"] {
+                        helper_inputs.push(format!("%{}{}{}", x, y, z));
+                        helper_inputs.push(format!("/{}%{}{}", z, x, y));
+                        helper_inputs.push(format!("k=%{}{}{}&{}%{}=1", x, y, z, z, x));
+                    }
+                }
+            }
+        }
+        for s in helper_inputs.iter() {
             let s = s.to_string();
             guarded(base, "canonical-helpers", json!({"input_len": s.len()}), &mut st, move || {
                 let _ = c::canonicalize_uri_path(&s, false);
